@@ -12,8 +12,10 @@ import (
 	"bytes"
 	"encoding/json"
 	"fmt"
+	"time"
 
 	"verifharness/core"
+	"verifharness/peer"
 	ss "verifharness/streamsim"
 )
 
@@ -24,6 +26,7 @@ type desc struct {
 	Case  ss.Case `json:"case"`
 	Edit  string  `json:"edit"`
 	Clean bool    `json:"clean"` // relay changed no byte in either direction
+	Mode  int     `json:"mode,omitempty"` // 0: one protected message each way; 1/2: three, the receiver reads on after a refusal (frame reads / ReceiveCompleteMessage)
 	HS    *hsCase `json:"hs,omitempty"`
 }
 
@@ -50,17 +53,55 @@ func asSeen(sent []ss.Data) []ss.SeenFrame {
 	return out
 }
 
-func firstFrames() []ss.Step {
+// appMsgs are the protected application messages a sender emits once the key is installed.
+var appMsgs = [][]byte{[]byte("application data"), []byte("second message"), []byte("third")}
+
+// firstFrames: the protected phases that follow the key installation.
+//
+//	mode 0: one message each way, read with ReceiveCompleteMessage (the first protected frame)
+//	mode 1: three messages, the receiver issues four frame reads and KEEPS READING after a
+//	        failure (ReceiveFrameWithEnd): after a refused first frame nothing later may open
+//	mode 2: the same with ReceiveCompleteMessage as the reader
+func firstFrames(mode int) []ss.Step {
 	ph := func(a bool) ss.Step {
-		m := ss.Msg{Kind: "direct", Chunks: []ss.Data{ss.Lit([]byte("application data"))}}
-		return ss.Step{Kind: "phase", ASends: a, SOps: m.SOps(), ROps: []ss.ROp{{Op: "complete"}}}
+		if mode == 0 {
+			m := ss.Msg{Kind: "direct", Chunks: []ss.Data{ss.Lit(appMsgs[0])}}
+			return ss.Step{Kind: "phase", ASends: a, SOps: m.SOps(), ROps: []ss.ROp{{Op: "complete"}}}
+		}
+		st := ss.Step{Kind: "phase", ASends: a, ReadOn: true}
+		api := "framewe"
+		if mode == 2 {
+			api = "complete"
+		}
+		for _, b := range appMsgs {
+			m := ss.Msg{Kind: "direct", Chunks: []ss.Data{ss.Lit(b)}}
+			st.SOps = append(st.SOps, m.SOps()...)
+			st.ROps = append(st.ROps, ss.ROp{Op: api})
+		}
+		st.ROps = append(st.ROps, ss.ROp{Op: api}) // one more read than frames sent
+		return st
 	}
 	return []ss.Step{ph(true), ph(false)}
 }
 
-// oracle for part 1: the first protected frame of a direction is accepted iff ... the property
-// only demands rejection after tampering; acceptance of the untampered run is C01's business but
-// is checked too (a relay that changes nothing must be harmless).
+// keyed oracle failure
+type oracleErr struct {
+	key string
+	msg string
+}
+
+func (e *oracleErr) Error() string { return e.msg }
+
+func keyOf(err error, def string) string {
+	if oe, ok := err.(*oracleErr); ok {
+		return oe.key
+	}
+	return def
+}
+
+// oracle for part 1: after tampering NO protected message may be accepted, neither the first nor -
+// when the receiver reads on after the refusal - any later one; an untampered run delivers every
+// message in order (a relay that changes nothing must be harmless) and nothing else.
 func check1(d *desc, obs *ss.Obs) error {
 	if obs.SetupErr != nil {
 		return nil // the cleartext phase itself failed: nothing was accepted
@@ -69,12 +110,34 @@ func check1(d *desc, obs *ss.Obs) error {
 		if po == nil {
 			continue
 		}
-		accepted := len(po.RRes) > 0 && po.RRes[0].OK
-		if !d.Clean && accepted {
+		want := 1
+		if d.Mode != 0 {
+			want = len(appMsgs)
+		}
+		var got [][]byte
+		firstRefused := false
+		for ri, r := range po.RRes {
+			if r.OK {
+				got = append(got, r.Data)
+			} else if ri == 0 {
+				firstRefused = true
+			}
+		}
+		if !d.Clean && len(got) > 0 {
+			if firstRefused {
+				return &oracleErr{"data-after-tamper-reading-on", fmt.Sprintf("edit %q: cleartext was altered in transit and the first protected frame of phase %d was refused, yet the receiver, reading on, accepted %d later message(s) (first: %q)", d.Edit, i, len(got), got[0])}
+			}
 			return fmt.Errorf("edit %q: cleartext was altered in transit, yet the first protected frame of phase %d authenticated and application data was accepted", d.Edit, i)
 		}
-		if d.Clean && !accepted {
-			return fmt.Errorf("edit %q (no byte changed): first protected frame of phase %d was rejected", d.Edit, i)
+		if d.Clean {
+			if len(got) != want {
+				return fmt.Errorf("edit %q (no byte changed): phase %d delivered %d of %d protected messages", d.Edit, i, len(got), want)
+			}
+			for j := range got {
+				if !bytes.Equal(got[j], appMsgs[j]) {
+					return fmt.Errorf("edit %q (no byte changed): phase %d message %d differs from what was sent", d.Edit, i, j)
+				}
+			}
 		}
 	}
 	return nil
@@ -84,7 +147,7 @@ func run1(c *core.Ctx, d *desc) error {
 	// each direction's first protected frame is tested in its own case (after a failure the model does not follow)
 	for _, aFirst := range []bool{true, false} {
 		cs := d.Case
-		steps := firstFrames()
+		steps := firstFrames(d.Mode)
 		if !aFirst {
 			steps[0], steps[1] = steps[1], steps[0]
 		}
@@ -103,15 +166,17 @@ func run1(c *core.Ctx, d *desc) error {
 }
 
 func gen(c *core.Ctx) error {
-	c.Rule("part 1: cleartext messages each way between two real Streams through an editing relay (every byte of every payload altered in turn, end flag altered, frame dropped / duplicated / inserted incl. zero-length / split / merged / reordered, in either direction or both), then SetSymmetricKey on both and the first protected frame each way, compared with the Coq model; part 2: real ClientHandshake/ServerHandshake (no authentication, CLAIMTOBE, resumed session) through a relay that alters one byte of the cleartext transcript (every offset, stride in quick) or inserts/removes/splits a cleartext frame; oracle: after any alteration no application message is accepted by either endpoint. non-trivial = run in which the relay altered the cleartext; distinct by (shape, edit)")
+	c.Rule("part 1: cleartext messages each way between two real Streams through an editing relay (every byte of every payload altered in turn, end flag altered, frame dropped / duplicated / inserted incl. zero-length / split / merged / reordered, in either direction or both), then SetSymmetricKey on both and, each way, either the first protected frame or three protected messages with the receiver READING ON after a refusal (frame reads / ReceiveCompleteMessage, rotating), compared with the Coq model; part 2: real ClientHandshake/ServerHandshake (no authentication, CLAIMTOBE, FS, TOKEN, resumed session) through a relay that alters one byte of the cleartext transcript (every offset, stride in quick) or inserts/removes/splits a cleartext frame, then three application messages each way with the receiver reading on after a refusal - also on the stream of an endpoint whose own handshake failed after its key was installed; oracle: after any alteration no application message is accepted by either endpoint, first or later. non-trivial = run in which the relay altered the cleartext; distinct by (shape, edit)")
 	k := 0
 	try := func(d *desc) {
 		k++
 		c.OracleCheck()
 		d.Clean = cleanOf(d.Case.Setup.PreAB, d.Case.Setup.SeenAB) && cleanOf(d.Case.Setup.PreBA, d.Case.Setup.SeenBA)
+		d.Mode = k % 3
 		if err := run1(c, d); err != nil {
-			c.OracleFail("binding", err.Error(), d)
+			c.OracleFail(keyOf(err, "binding"), err.Error(), d)
 		}
+		c.Count(fmt.Sprintf("protected-phase-mode-%d", d.Mode))
 		if !d.Clean {
 			c.Nontrivial(fmt.Sprint(len(d.Case.Setup.PreAB), len(d.Case.Setup.PreBA), d.Edit))
 		}
@@ -246,6 +311,14 @@ func replay(raw json.RawMessage) error {
 		return err
 	}
 	if d.Part == 2 && d.HS != nil {
+		peer.Quiet()
+		peer.Timeout = 5 * time.Second
+		defer func() {
+			if tokWorld != nil {
+				tokWorld.Cleanup()
+				tokWorld = nil
+			}
+		}()
 		return runHS(d.HS)
 	}
 	d.Clean = cleanOf(d.Case.Setup.PreAB, d.Case.Setup.SeenAB) && cleanOf(d.Case.Setup.PreBA, d.Case.Setup.SeenBA)
